@@ -427,7 +427,14 @@ func (p *Packer) Unpack(r io.Reader, dst string) error {
 
 		// Handle symlinks, directories, non-regular files
 		if info.IsSymlink() {
-			if ok, err := p.validSymlink(dst, header.Name, header.Linkname); ok {
+			// Validate the link at the location where it is created: that is
+			// info.Path, which differs from header.Name for names such as
+			// "/a/link" (the leading slash is dropped on extraction).
+			linkPath, err := filepath.Rel(dst, info.Path)
+			if err != nil {
+				return &IllegalSlugError{Err: err}
+			}
+			if ok, err := p.validSymlink(dst, linkPath, header.Linkname); ok {
 				// Create the symlink.
 				if err = os.Symlink(header.Linkname, info.Path); err != nil {
 					return fmt.Errorf("failed creating symlink (%q -> %q): %w",
